@@ -150,7 +150,8 @@ def judge(ctx, c07, tab, case, status, obj, ptrs):
                 compare(c07, tab, case, obj[0], obj[1], ptrs, want_img=case["fimg"], want_rel=case["frel"]) is None:
             explained = "image"
     if explained:
-        for dv in fired:
+        blame = [d for d in fired if d == "AnonNoMem"] if explained == "undef" else fired
+        for dv in blame or fired:
             k = "dev:AutoBackZero:auto" if dv == "AutoBackZero" else "dev:%s:%s" % (dv, explained)
             ctx.violation(k, "automatic %s: %s" % (decl, why), info)
     else:
